@@ -1,5 +1,8 @@
 import Hls.E2E.Lemmas
+import Hls.E2E.RenditionsLemmas
 import Hls.Props.C10
+import Hls.Props.C14Multi
+import Hls.Props.C16
 /-!
 # C09 — A Client reading a Muxer reproduces the written stream
 
@@ -449,5 +452,154 @@ example : exDeliveries =
 example : Mono [⟨60494850, 0, true, 201, 9, 0⟩, ⟨60495874, 0, true, 202, 9, 0⟩] 60496898 ∧
     (0 : Int) ≤ 123456789 + 10 * 90000 := by
   refine ⟨⟨⟨by decide, by decide⟩, by decide, by decide⟩, by decide⟩
+
+/-! ## renditions: name, language, default flag
+
+Muxer model (`Hls.MvGen.start` + `generateWith`, the model of C16) → `Multivariant.Marshal` → text →
+`Multivariant.Unmarshal` (the character-level models and round-trip theorem of C14) → client model
+(`Hls.E2E.Rend.clientStreams / trackAttrs`, mirroring the multivariant branch of `clientPrimaryDownloader.run` and the
+`Track` literal of `clientStreamProcessorFMP4.run`; which fields are read is regenerated: `Hls.Gen.E2E.clientTrackCopies`
+…). The composition goes THROUGH THE TEXT: the hypothesis `WFMultivariant` is C14's documented field requirements on the
+value the muxer hands to `Marshal` (names / languages / URIs without `"`, CR, LF; bandwidths below 2³¹; a frame rate that
+survives three decimals; …); `checkSupport` on the variant's CODECS is `c09_codecs_supported`. -/
+
+/-- T1 tie of the client half: the fields `clientStreamProcessorFMP4.run` copies from the rendition (and only when the
+    stream is not the leading one), the group lookup of `clientPrimaryDownloader.run`, its skip of URI-less renditions and
+    its stream literals are the regenerated ones the model interprets; `getRenditionsByGroup` and `pickLeadingPlaylist`,
+    mirrored by hand in `Hls/E2E/Renditions.lean`, have the pinned source text. -/
+theorem c09_rendition_source :
+    E2E.clientTrackCopies = [("Name", "Name"), ("Language", "Language"), ("IsDefault", "Default")] ∧
+    E2E.clientTrackPlainFields = ["Codec", "ClockRate"] ∧
+    E2E.clientVariantGroupField = "Audio" ∧ E2E.clientRenditionGroupField = "GroupID" ∧
+    E2E.clientRenditionSkipNilField = "URI" ∧
+    E2E.clientStreamLiterals = [(true, "none"), (true, "none"), (false, "pl")] ∧
+    E2E.clientRenditionPins = [("getRenditionsByGroup", "e5645caad42e856f"), ("pickLeadingPlaylist", "3bce94b2d6ca1473")] := by
+  decide
+
+/-- For every track layout `Start` accepts (fMP4 variants; the MPEG-TS variant has no renditions, `c16_renditions`):
+    * the client opens the variant's own playlist first (leading stream) and then exactly one stream per rendition stream
+      of the muxer that is not the leading one, in order, under the URI the muxer listed for it;
+    * the tracks of each such stream report exactly what the muxer advertised for it — NAME = the user's name or the stream
+      id (`audio<i+1>`), LANGUAGE, DEFAULT as `Start` assigned them (`c16_renditions`, `c16_one_default` say which);
+    * the tracks of the leading stream report no attribute at all.
+    Known exception, exactly (finding F22): the leading stream is itself advertised as a rendition — an EXT-X-MEDIA entry
+    WITHOUT URI — iff the muxer has no video track and more than one track; that entry (never with an empty NAME) has no
+    stream of its own, its attributes are reported by NO track: the client's leading stream reports the zero values. -/
+theorem c09_renditions (v : Hls.MvGen.Variant) (sc : Nat) (tracks : List Hls.MvGen.Track)
+    (streams : List Hls.MvGen.Stream) (q : String) (bw : Nat × Nat) (fr : Option Hls.Playlist.F64)
+    (h : Hls.MvGen.start v sc tracks = .ok streams) (hv : v ≠ .mpegts) :
+    let m := Hls.MvGen.generateWith v streams tracks q bw
+    let p := Rend.embed fr m
+    Hls.Playlist.WFMultivariant p → (∀ pv ∈ p.variants, checkSupport pv.codecs = true) →
+    ∃ p' cs, Hls.Playlist.Multivariant.unmarshal p.marshal = .ok p' ∧ Rend.clientStreams p' = .ok cs ∧
+      (∃ c0 rest, cs = c0 :: rest ∧ c0.isLeading = true ∧
+        rest = ((streams.filter (·.isRendition)).filter (fun s => !s.isLeading)).map (Rend.cstreamOf q)) ∧
+      (∀ s ∈ streams, s.isRendition = true → s.isLeading = false →
+        ∃ c ∈ cs, c.isLeading = false ∧ c.uri = Rend.streamUri q s ∧ Rend.trackAttrs c = Rend.advertised s) ∧
+      (∀ s ∈ streams, s.isRendition = true → ∃ ti ∈ tracks.zipIdx 0, s.id = Hls.MvGen.streamId ti.1 ti.2 ∧
+        s.name = (if ti.1.name ≠ "" then ti.1.name else Hls.MvGen.streamId ti.1 ti.2) ∧ s.language = ti.1.language) ∧
+      (∀ c ∈ cs, c.isLeading = true → Rend.trackAttrs c = { name := [], language := [], isDefault := false }) ∧
+      ((∃ s ∈ streams, s.isLeading = true ∧ s.isRendition = true) ↔
+        (Hls.MvGen.hasVideo tracks = false ∧ tracks.length > 1)) ∧
+      (∀ s ∈ streams, s.isLeading = true → s.isRendition = true →
+        Hls.MvGen.toRendition q s ∈ m.renditions ∧ (Hls.MvGen.toRendition q s).uri = none ∧
+        (Rend.advertised s).name ≠ [] ∧ ∀ c ∈ cs, c.isLeading = true → Rend.trackAttrs c ≠ Rend.advertised s) := by
+  intro m p hwf hsup
+  obtain ⟨p', hun, _, _, _, hvar, hrend⟩ := Hls.Props.C14Multi.c14_multivariant_roundtrip p hwf
+  obtain ⟨lu, hcs⟩ := Rend.clientStreams_embed fr v streams tracks q bw hsup
+  have hcs' : Rend.clientStreams p' = _ := (Rend.clientStreams_congr p p' hvar hrend).trans hcs
+  refine ⟨p', _, hun, hcs', ⟨_, _, rfl, rfl, rfl⟩, ?_, ?_, ?_, Rend.lead_rendition_iff h hv, ?_⟩
+  · intro s hs hr hl
+    refine ⟨Rend.cstreamOf q s, ?_, rfl, rfl, Rend.trackAttrs_cstreamOf q s⟩
+    apply List.mem_cons_of_mem
+    apply List.mem_map_of_mem
+    exact List.mem_filter.mpr ⟨List.mem_filter.mpr ⟨hs, hr⟩, by simp [hl]⟩
+  · intro s hs hr
+    obtain ⟨ti, hti, h1, h2, h3, _⟩ := Rend.rendition_stream_track h hv s hs hr
+    exact ⟨ti, hti, h1, h2, h3⟩
+  · intro c hc hl
+    rcases List.mem_cons.mp hc with rfl | hc
+    · exact Rend.trackAttrs_leading _ _
+    · obtain ⟨s, _, rfl⟩ := List.mem_map.mp hc
+      simp [Rend.cstreamOf] at hl
+  · intro s hs hl hr
+    have hshape := (Rend.generate_shape v streams tracks q bw).1
+    have hname := Rend.rendition_name_ne h hv s hs hr
+    refine ⟨?_, by simp [Hls.MvGen.toRendition, hl], hname, ?_⟩
+    · show _ ∈ (Hls.MvGen.generateWith v streams tracks q bw).renditions
+      rw [hshape]
+      exact List.mem_map_of_mem (List.mem_filter.mpr ⟨hs, hr⟩)
+    · intro c hc hcl
+      have hz : Rend.trackAttrs c = { name := [], language := [], isDefault := false } := by
+        rcases List.mem_cons.mp hc with rfl | hc
+        · exact Rend.trackAttrs_leading _ _
+        · obtain ⟨s', _, rfl⟩ := List.mem_map.mp hc
+          simp [Rend.cstreamOf] at hcl
+      rw [hz]
+      intro he
+      apply hname
+      have := congrArg Rend.TrackAttrs.name he
+      simpa [Rend.advertised] using this.symm
+
+/-! ### non-vacuity and the witness of F22 -/
+
+/-- video + two audio tracks (fMP4), query `a=b`: the value handed to `Marshal` meets C14's field requirements, its CODECS
+    pass `checkSupport` … -/
+def exRendTracks : List Hls.MvGen.Track :=
+  [{ codec := .h264, params := .h264 0x42 0xc0 0x28, res := "1920x1080" },
+   { codec := .mpeg4audio, params := .mpeg4audio 2, language := "en" },
+   { codec := .opus, params := .opus, name := "German", language := "de", isDefault := true }]
+
+def exRendValue (tracks : List Hls.MvGen.Track) : Option Hls.Playlist.Multivariant :=
+  match Hls.MvGen.start .fmp4 3 tracks with
+  | .ok ss => some (Rend.embed none (Hls.MvGen.generateWith .fmp4 ss tracks "a=b" (70000, 50000)))
+  | .error _ => none
+
+/-- what the client model reports per stream it opens, after `Unmarshal (Marshal value)`: (leading?, URI, NAME, LANGUAGE, DEFAULT) -/
+def exRendReport (tracks : List Hls.MvGen.Track) : List (Bool × String × String × String × Bool) :=
+  match exRendValue tracks with
+  | none => []
+  | some p =>
+    match Hls.Playlist.Multivariant.unmarshal p.marshal with
+    | .ok p' =>
+      (match Rend.clientStreams p' with
+       | .ok cs => cs.map fun c =>
+           let a := Rend.trackAttrs c
+           (c.isLeading, String.ofList c.uri, String.ofList a.name, String.ofList a.language, a.isDefault)
+       | .error _ => [])
+    | .error _ => []
+
+example : (match exRendValue exRendTracks with
+    | some p => decide (Hls.Playlist.WFMultivariant p) && p.variants.all (fun pv => checkSupport pv.codecs)
+    | none => false) = true := by decide +kernel
+
+/-- … and the two renditions come out of the client as advertised: `audio2` (stream id, no user name) / `en`, and
+    `German` / `de` / DEFAULT -/
+example : exRendReport exRendTracks =
+    [(true, "video1_stream.m3u8?a=b", "", "", false),
+     (false, "audio2_stream.m3u8?a=b", "audio2", "en", false),
+     (false, "audio3_stream.m3u8?a=b", "German", "de", true)] := by decide +kernel
+
+/-- WITNESS of the exception (F22): an audio-only muxer with two tracks. The muxer advertises the leading track as
+    `NAME="main",LANGUAGE="en",DEFAULT=YES` without URI … -/
+def exF22Tracks : List Hls.MvGen.Track :=
+  [{ codec := .mpeg4audio, params := .mpeg4audio 2, name := "main", language := "en", isDefault := true },
+   { codec := .opus, params := .opus, name := "alt1", language := "it" }]
+
+example : (Hls.MvGen.start .fmp4 3 exF22Tracks).map (fun ss =>
+      (Hls.MvGen.generateWith .fmp4 ss exF22Tracks "" (7, 5)).renditions.map (fun r => (r.name, r.language, r.default, r.uri))) =
+    .ok [("main", "en", true, none), ("alt1", "it", false, some "audio2_stream.m3u8")] := by decide
+
+/-- … and the client reports the leading stream's track without name, language or default flag; only `alt1` arrives -/
+example : (match Hls.MvGen.start .fmp4 3 exF22Tracks with
+    | .ok ss =>
+      let p := Rend.embed none (Hls.MvGen.generateWith .fmp4 ss exF22Tracks "" (70000, 50000))
+      (match Hls.Playlist.Multivariant.unmarshal p.marshal with
+       | .ok p' => (match Rend.clientStreams p' with
+          | .ok cs => cs.map fun c => (c.isLeading, String.ofList (Rend.trackAttrs c).name,
+                                      String.ofList (Rend.trackAttrs c).language, (Rend.trackAttrs c).isDefault)
+          | .error _ => [])
+       | .error _ => [])
+    | .error _ => []) = [(true, "", "", false), (false, "alt1", "it", false)] := by decide +kernel
 
 end Hls.Props.C09
